@@ -53,6 +53,7 @@ def run(ctx):
     hists = [fc.observers(rng, fc.PATHS, [fc.norm_op(op, rng) for op in h], 0.15) for h in hists]
     # 2. G4: seeded random input scripts over a larger path universe, no hard links
     hists += fc.random_scripts(rng, 400 if ctx.thorough else 80, 12, WEIGHTS)
+    hists += fc.merge_scripts(rng, 48 if ctx.thorough else 16)
     hists = fc.finding_scripts("C18") + hists
     fc.drive_and_judge(ctx, hists, nontrivial, mutate, ["C18"])
     ctx.rule = ("executions = one TLC witness history per (namespace state, last operation) to depth %d over 5 paths "
